@@ -47,7 +47,7 @@ LEGACY_EMPTY = False
 # from the read to the end of the wrap step: an overlapping nowrap=True read waits)
 LOCKED = True
 SHARD = 120
-CASE_TIMEOUT = 90      # a 'preempt' case enumerates all pre-emption points of one call (0.1 s each when the clear blocks)
+CASE_TIMEOUT = 90      # a 'preempt' case enumerates all pre-emption points of one call (0.05 s each when the clear blocks)
 MAXPOINTS = 300
 
 NET_NAMES = ["lo", "eth0", "wlan0", "eth0:1", "a:b"]
